@@ -94,13 +94,15 @@ def paren_prefix(node):
     return False
 
 
-def write_checks(x, toks, sig_extra=None):
+def write_checks(x, toks, sig_extra=None, must_work=False):
     vs = ST.views(toks)
     ref_ok = True
     try:
         RP.parse(vs)
     except (RP.Reject, RP.Abstain):
-        ref_ok = False
+        # (must_work: forms the reference abstains on but picotool's parser
+        # documents as part of its grammar, e.g. "if (c) do ... end")
+        ref_ok = must_work
     p = parser.Parser(version=8)
     try:
         p.process_tokens(toks)
@@ -161,7 +163,7 @@ def seeds(x, p):
     lx = lexer.Lexer(version=8)
     lx.process_lines([src])
     x.out('n', len(lx.tokens))
-    write_checks(x, lx.tokens)
+    write_checks(x, lx.tokens, must_work=p.get('must_work', False))
 
 
 # (code, fully parsed?, expected formatted text as a function of the width)
@@ -270,6 +272,9 @@ HARNESSES = [
             thorough=[dict(Q, pre=a, post=b, k=2, _budget=1800)
                       for a, b in P8.CONTEXTS]),
     Harness('seeds', seeds, quick=[dict(Q, src=s) for s in SEEDS] +
+            [dict(Q, src=s, must_work=True) for s in (
+                'if (x) do\n y=1\nend\nz=2\n', 'if x do y=1 end\n',
+                'if x -- c\n do y=1 else z=2 end')] +
             [dict(Q, src=s) for s in P8.EVERY] +
             [dict(Q, src=s.replace(' ', '  --c\n ').replace('\n', ' \n\n'))
              for s in P8.EVERY]),
